@@ -441,6 +441,31 @@ def must_checks(C, P):
         rsm = agg_positions(b, 'ArxmlParserError', 'RequiredSubelementMissing')
         C.check(len(rsm) >= 1, 'C08-MUST-checks', 'ArxmlParser::parse_element|RequiredSubelementMissing-built', 'missing SHORT-NAME is no longer reported')
 
+        # the flag that waives the test is raised only for a SHORT-NAME in FIRST position (only that one names the element, see
+        # ElementRaw::is_identifiable): every store of `true` into it lies on the true edge of an emptiness test of the parent's content
+        flags = set()
+        for (blk_, tgt_) in cut:
+            d_ = b.blocks[blk_]['term']['d']
+            for l_ in snl or []:
+                flags.add(l_)
+        if not flags:
+            # name-free: bool locals that receive a constant `true` inside a loop and feed one of the cut switches
+            for pos, st in b.iter_stmts():
+                if st['k'] == 'assign' and not st['dst']['p'] and (b.local_ty(st['dst']['l']) or '') == 'bool' and st['rv']['k'] == 'use' and not is_local_op(st['rv']['o']) and str(st['rv']['o'].get('v', st['rv']['o'].get('i'))) in ('true', '1'):
+                    if any(b.blocks[blk_]['term']['d']['l'] in forward_taint(b, {st['dst']['l']}, through_refs=False) for (blk_, tgt_) in cut):
+                        flags.add(st['dst']['l'])
+        from flow import deep_sources as _dsx
+        import events as _Ev
+        raises = [pos for pos, st in b.iter_stmts() if st['k'] == 'assign' and not st['dst']['p'] and st['dst']['l'] in flags and st['rv']['k'] == 'use' and not is_local_op(st['rv']['o'])
+                  and str(st['rv']['o'].get('v', st['rv']['o'].get('i'))) in ('true', '1')]
+        empt = [pos for pos, t in b.iter_calls() if call_matches(t, r'SmallVec::<A>::is_empty$|Vec::<T, A>::is_empty$|<impl \[T\]>::is_empty$') and 'ElementRaw.content' in _dsx(b, t['args'][0], depth=8)[2]]
+        from pairing import guarded_by_true
+        okf = bool(raises) and bool(empt) and all(any(guarded_by_true(b, r_, e_) for e_ in empt) for r_ in raises)
+        C.check(okf, 'C08-MUST-checks', 'ArxmlParser::parse_element|short-name-flag|raised-only-for-the-first-sub-element',
+                'the flag that waives the missing-SHORT-NAME finding is raised for a SHORT-NAME at any position, although only a SHORT-NAME in first position names the element: '
+                '<AR-PACKAGE><CATEGORY/><SHORT-NAME>a</SHORT-NAME> is accepted by strict loading as if it had a name, while the element has no path and is not in the index',
+                where=b.where(raises[0]) if raises else '', sample={'fn': 'parse_element', 'flag_raised_at': len(raises), 'guard': 'element.content.is_empty() (true edge)'})
+
     # parse_arxml: Ok dominated by verify_end_of_input, parse_file_header, parse_attribute_text, parse_element
     pa = P.get('ArxmlParser::parse_arxml')
     dominating_calls(C, P, 'ArxmlParser::parse_arxml', 'Ok exit', ok_exits(pa), [
